@@ -21,7 +21,6 @@ package autodiff
 /* -------------------------------------------------------------------------- */
 import "fmt"
 import "encoding/json"
-import "math"
 import "reflect"
 /* -------------------------------------------------------------------------- */
 type ConstInt16 int16
@@ -109,12 +108,7 @@ func (obj ConstInt16) MarshalJSON() ([]byte, error) {
 /* math
  * -------------------------------------------------------------------------- */
 func (a ConstInt16) Equals(b ConstScalar, epsilon float64) bool {
-  v1 := a.GetFloat64()
-  v2 := b.GetFloat64()
-  return math.Abs(v1 - v2) < epsilon ||
-        (math.IsNaN(v1) && math.IsNaN(v2)) ||
-        (math.IsInf(v1, 1) && math.IsInf(v2, 1)) ||
-        (math.IsInf(v1, -1) && math.IsInf(v2, -1))
+  return a.GetInt16() == b.GetInt16()
 }
 /* -------------------------------------------------------------------------- */
 func (a ConstInt16) Greater(b ConstScalar) bool {
